@@ -189,6 +189,11 @@ def run(ctx):
                 if st["mask"] != m["mask"]:
                     ctx.violation("validity differs from the reference", info, {"step": n, "instruction": ins, "impl": st["mask"], "model": m["mask"]}, True, size=len(prog), signature=sig); break
                 bad = [i for i, (x, y) in enumerate(zip(st["data"], m["data"])) if not close(mtexec.bits_f64(x), mtexec.bits_f64(y))]
+                if bad and len(st["mask"]) == len(st["data"]):
+                    # under the mask the garbage (1e30, ±inf, NaN) overflows binary32 long before binary64: once either side is non-finite or beyond 1e18
+                    # the two arithmetics legitimately part ways there; such positions are not values of the tensor
+                    wild = lambda v: not math.isfinite(v) or abs(v) > 1e18
+                    bad = [j for j in bad if st["mask"][j] or not (wild(mtexec.bits_f64(st["data"][j])) or wild(mtexec.bits_f64(m["data"][j])))]
                 if bad:
                     i = bad[0]
                     valid_bad = [j for j in bad if st["mask"][j]] if len(st["mask"]) == len(st["data"]) else bad
